@@ -72,6 +72,7 @@ type dsObs struct {
 	F64     readRes  `json:"f64"`
 	Str     readRes  `json:"str"`
 	Cmp     readRes  `json:"cmp"`
+	Raw     readRes  `json:"raw"` // the stored bytes (independent decoder only; "unsupported" elsewhere)
 	Attrs   attrsObs `json:"attrs"`
 }
 
@@ -165,7 +166,7 @@ func projectAttrs(get func() ([]*attrPtr, error), back map[string]string) attrsO
 }
 
 func projectDataset(d *hdf5.Dataset, back map[string]string) dsObs {
-	o := dsObs{Info: "ok", Dims: []int{}, Max: []int{}, Chunk: []int{}, Cls: -1, Detail: "?"}
+	o := dsObs{Info: "ok", Dims: []int{}, Max: []int{}, Chunk: []int{}, Cls: -1, Detail: "?", Raw: readRes{Res: "unsupported", Data: noData}}
 	res, _ := lib.Call(func() error {
 		info, err := d.VerifInfo()
 		if err != nil {
